@@ -1,5 +1,147 @@
 #!/usr/bin/env python3
-"""(T) translator: regenerates Umya/Model/Gen/*.lean from /repo's current source.
-Prints one JSON line describing what was extracted / what fell back to the committed snapshot."""
-import json, sys
-print(json.dumps({"functions_extracted": [], "fallbacks": [], "note": "translator not yet populated"}))
+"""(T) translator: regenerates lean/Umya/Model/Gen/Kernels.lean from the CURRENT source of the scalar
+shift kernels in /repo (helper/coordinate.rs, structs/row.rs, structs/column.rs).
+
+Grammar handled: a function body that is `if C { E } else { E }`, `if C { return E; } E`,
+`if C { <field>.set_value(E); }` or a bare expression, over identifiers, integer literals, `true`/`false`,
+parentheses and the operators  || && == != >= <= > < + -  (`&` / `*` reference noise is dropped).
+Anything else -> the committed snapshot of the generated file is kept and the function is reported under
+"fallbacks" (that is not a violation: the tie for it falls back to the correspondence check alone).
+Prints one JSON line."""
+import re, os, sys, json
+
+REPO = os.environ.get("UMYA_REPO", "/repo")
+ROOT = os.path.dirname(os.path.dirname(os.path.abspath(__file__)))
+OUT = os.path.join(ROOT, "lean", "Umya", "Model", "Gen", "Kernels.lean")
+
+TARGETS = [
+    ("src/helper/coordinate.rs", "adjustment_insert_coordinate", "adjustment_insert_coordinate", "Nat"),
+    ("src/helper/coordinate.rs", "adjustment_remove_coordinate", "adjustment_remove_coordinate", "Nat"),
+    ("src/helper/coordinate.rs", "is_remove_coordinate", "is_remove_coordinate", "Bool"),
+    ("src/structs/row.rs", "adjustment_insert_value", "row_adjustment_insert_value", "Nat"),
+    ("src/structs/row.rs", "adjustment_remove_value", "row_adjustment_remove_value", "Nat"),
+    ("src/structs/row.rs", "is_remove_value", "row_is_remove_value", "Bool"),
+    ("src/structs/column.rs", "adjustment_insert_value", "column_adjustment_insert_value", "Nat"),
+    ("src/structs/column.rs", "adjustment_remove_value", "column_adjustment_remove_value", "Nat"),
+    ("src/structs/column.rs", "is_remove_value", "column_is_remove_value", "Bool"),
+]
+
+def body_of(src, fn):
+    m = re.search(r"fn\s+" + re.escape(fn) + r"\s*\(", src)
+    if not m:
+        raise ValueError("function not found")
+    i = src.index("{", m.end())
+    depth, j = 0, i
+    while True:
+        if src[j] == "{": depth += 1
+        elif src[j] == "}":
+            depth -= 1
+            if depth == 0: break
+        j += 1
+    return src[i + 1:j]
+
+def tokenize(s):
+    s = re.sub(r"//[^\n]*", "", s)
+    s = re.sub(r"self\s*\.\s*(row_num|col_num)\s*\.\s*get_value\s*\(\s*\)", "num", s)
+    toks = re.findall(r"\|\||&&|==|!=|>=|<=|[A-Za-z_][A-Za-z_0-9]*(?:\s*\.\s*[A-Za-z_][A-Za-z_0-9]*)*|\d+(?:u32)?|[{}();<>+\-!&*,]", s)
+    out = []
+    for t in toks:
+        if t in ("&", "*"):
+            continue                      # reference / dereference noise (there is no multiplication in these kernels)
+        out.append(re.sub(r"\s+", "", t))
+    return out
+
+class P:
+    def __init__(self, toks): self.t, self.i = toks, 0
+    def peek(self): return self.t[self.i] if self.i < len(self.t) else None
+    def eat(self, x=None):
+        t = self.peek()
+        if t is None or (x is not None and t != x): raise ValueError(f"expected {x}, got {t}")
+        self.i += 1; return t
+    # expression precedence climbing
+    def expr(self): return self.or_()
+    def or_(self):
+        a = self.and_()
+        while self.peek() == "||": self.eat(); a = ("rOr", a, self.and_())
+        return a
+    def and_(self):
+        a = self.cmp()
+        while self.peek() == "&&": self.eat(); a = ("rAnd", a, self.cmp())
+        return a
+    def cmp(self):
+        a = self.add()
+        ops = {"==": "rEq", "!=": "rNe", ">=": "rGe", "<=": "rLe", ">": "rGt", "<": "rLt"}
+        if self.peek() in ops:
+            op = ops[self.eat()]; return (op, a, self.add())
+        return a
+    def add(self):
+        a = self.atom()
+        while self.peek() in ("+", "-"):
+            op = "rAdd" if self.eat() == "+" else "rSub"; a = (op, a, self.atom())
+        return a
+    def atom(self):
+        t = self.peek()
+        if t == "(":
+            self.eat("("); e = self.expr(); self.eat(")"); return e
+        if t == "!":
+            self.eat(); return ("rNot", self.atom())
+        if t is None: raise ValueError("unexpected end")
+        self.eat()
+        if re.fullmatch(r"\d+(u32)?", t): return ("lit", t.replace("u32", ""))
+        if t in ("true", "false"): return ("bool", t)
+        if re.fullmatch(r"[A-Za-z_][A-Za-z_0-9]*", t): return ("var", t)
+        raise ValueError(f"unexpected token {t}")
+    def body(self):
+        if self.peek() == "if":
+            self.eat("if"); c = self.expr(); self.eat("{")
+            if self.peek() == "return":
+                self.eat("return"); t = self.expr(); self.eat(";"); self.eat("}")
+                e = self.expr()
+                return ("rIte", c, t, e)
+            # `<field>.set_value(E);`
+            if self.peek() and self.peek().endswith(".set_value"):
+                self.eat(); self.eat("("); t = self.expr(); self.eat(")"); self.eat(";"); self.eat("}")
+                return ("rIte", c, t, ("var", "num"))
+            t = self.expr(); self.eat("}")
+            if self.peek() == "else":
+                self.eat("else"); self.eat("{"); e = self.expr(); self.eat("}")
+                return ("rIte", c, t, e)
+            raise ValueError("if without else in expression position")
+        return self.expr()
+
+def lean(e):
+    k = e[0]
+    if k == "lit": return f"(.ok {e[1]})"
+    if k == "bool": return f"(.ok {e[1]})"
+    if k == "var":
+        if e[1] not in ("num", "root_num", "offset_num"): raise ValueError(f"unknown identifier {e[1]}")
+        return f"(.ok {e[1]})"
+    if k == "rNot": return f"(rNot {lean(e[1])})"
+    if k == "rIte": return f"(rIte {lean(e[1])} {lean(e[2])} {lean(e[3])})"
+    return f"({k} {lean(e[1])} {lean(e[2])})"
+
+def main():
+    defs, extracted, fallbacks = [], [], []
+    old = open(OUT).read() if os.path.exists(OUT) else ""
+    for path, fn, name, ty in TARGETS:
+        try:
+            src = open(os.path.join(REPO, path)).read()
+            p = P(tokenize(body_of(src, fn)))
+            e = p.body()
+            if p.peek() is not None: raise ValueError(f"trailing tokens from {p.peek()}")
+            defs.append((name, f"/-- translated from `{path}` fn `{fn}` -/\ndef {name} (num root_num offset_num : Nat) : Res {ty} :=\n  {lean(e)}\n"))
+            extracted.append(name)
+        except Exception as ex:
+            m = re.search(r"/-- translated from[^\n]*-/\ndef " + re.escape(name) + r" .*?\n\n", old, re.S)
+            if m:
+                defs.append((name, m.group(0).rstrip("\n") + "\n"))
+            fallbacks.append({"function": name, "reason": str(ex)[:120]})
+    text = ("/-\n  GENERATED by tools/extract.py from the current source of /repo — do not edit.\n  The scalar shift kernels of helper/coordinate.rs, structs/row.rs, structs/column.rs.\n-/\n"
+            "import Umya.Model.GenPrelude\nnamespace Umya.Gen\nopen Umya.Coord (Res)\n\n" + "\n".join(d for _, d in defs) + "\nend Umya.Gen\n")
+    if text != old:
+        os.makedirs(os.path.dirname(OUT), exist_ok=True)
+        open(OUT, "w").write(text)
+    print(json.dumps({"functions_extracted": extracted, "fallbacks": fallbacks, "changed": text != old}))
+
+if __name__ == "__main__":
+    main()
